@@ -9,7 +9,6 @@ RULE = ("exhaustive: all strings up to length 6 (quick) / 7 (thorough) over {a, 
         "quoted per token with ' or \" (or left bare when possible) and joined by random whitespace runs - an expressible stream "
         "(round trip required) and an inexpressible one (model = implementation only); argv lists with '--' at every position; "
         "str.isspace() table; non-trivial = string with a quote or backslash, or >= 2 tokens; distinct by string / token list")
-THEOREMS = ["tokenize_terminates", "tokenize_total", "unquoted_split", "roundtrip", "option_tokens_spec"]
 TRUSTED = ["parser/resolver indistinguishability of StringArgs and ArgvArgs is checked by running both through one parser (testing)"]
 ASSUMPTIONS = []
 
